@@ -117,22 +117,30 @@ def parseVariant (s : String) : Option TLSVariant :=
       | "email" => some .email
       | "self" => some .selfSigned
       | "manual" => some .manual
+      | "load" => some .load
       | "block" => some .block
+      -- options only, written differently in the Casketfile (protocols / ciphers / an imported snippet): same flags as `block`
+      | "proto" => some .block
+      | "ciph" => some .block
+      | "snip" => some .block
       | _ => none
     if opts.any (fun o => o != "nr" && o != "od") then none
     pure { base := base, noRedirect := opts.contains "nr", onDemand := opts.contains "od" }
 
-/-- one declared site: address text, bind, tls variant -/
+/-- the `tls` directives of a site block, in the order of the Casketfile: `v1&v2&…` -/
+def parseVariants (s : String) : Option (List TLSVariant) := (s.splitOn "&").mapM parseVariant
+
+/-- one declared site: address text, bind, tls directives -/
 structure Decl where
   addr : Bytes
   bind : Bytes
-  tls : TLSVariant
+  tls : List TLSVariant
 
 def parseBlock (s : String) : Option (List Decl) :=
   match s.splitOn "|" with
   | [keys, bind, tls] => do
     let bind ← unq bind
-    let v ← parseVariant tls
+    let v ← parseVariants tls
     let ks ← (keys.splitOn ",").mapM unq
     pure (ks.map fun k => { addr := k, bind := bind, tls := v })
   | _ => none
@@ -159,7 +167,7 @@ def sitesModel : List String → String
       match inspectP P (ds.map (·.addr)) with
       | .error e => errName e
       | .ok addrs =>
-        let decl := (addrs.zip ds).map fun (a, d) => siteOf a d.bind d.tls
+        let decl := (addrs.zip ds).map fun (a, d) => siteOfL a d.bind d.tls
         if decl.any directiveError then "error:directive" else
         let marked := markQualifiedP P decl
         let en := enableAutoHTTPSP P marked
@@ -178,7 +186,7 @@ def specDeclared (P : Ports) (d : Decl) : Site :=
   let (s, h, p) := readAddrP P d.addr
   -- the host as Address.Normalize writes an IP literal
   let h := match parseIP h with | some ip => ipString ip | none => h
-  applyTLS d.tls { scheme := s, host := h, port := p, listen := d.bind }
+  readTLS d.tls { scheme := s, host := h, port := p, listen := d.bind }
 
 def parseBit (s : String) : Option Bool := if s == "1" then some true else if s == "0" then some false else none
 
